@@ -1517,3 +1517,132 @@ def rule_codec_inline(ctx, R):
                       "the parser recognises a %d-byte inline form by comparing buffered bytes with a constant (line %d) but has no prefix test for fewer bytes: when the form arrives split (`PI` then `NG`) the bytes fall through to the RESP parser and the client gets a protocol error -- the answer depends on how the request was split into reads" % (N, b.bb_line(i)), b.loc(i))
     R.inst(b.fn, "inline-forms", {"recognitions": n, "parse_frame_calls": len(pf)})
     R.floor("inline_form_comparisons", n)
+
+
+# ---- R-CODEC-STDINT -------------------------------------------------------------------------------
+STD_INT = r"core::str::<impl str>::parse::<i(64|128)>$|<i64 as std::str::FromStr>::from_str$|i64>::from_str_radix$"
+
+
+def rule_codec_stdint(ctx, R):
+    """every integer the serializer can write is read back: the number of an integer frame (and the
+    header numbers of bulk strings and arrays) comes from the std i64 parser, which covers the
+    whole range including i64::MIN.  (a) the value handed to `RespFrame::Integer` in the parser
+    has the std parser on its provenance; (b) no function of the parser accumulates decimal
+    digits itself (a multiplication by 10 inside a loop): a magnitude-then-negate accumulator
+    loses -2^63, which the server itself emits (DECR on -9223372036854775807)."""
+    n = 0; loops10 = 0
+    for fn, b in sorted(ctx.prog.bodies.items()):
+        if not fn.startswith("protocol::parser::") or "::tests::" in fn:
+            continue
+        for i, bb in enumerate(b.bbs):
+            for st in bb["s"]:
+                if st["k"] == "=" and st["r"]["k"] == "agg" and st["r"]["a"] == "protocol::resp::RespFrame::Integer" and st["r"]["o"]:
+                    n += 1
+                    o = st["r"]["o"][0]
+                    P = prov.operand_origins(b, o, deep=True) if not op_is_const(o) else None
+                    ok = P is not None and (P.has_call(STD_INT) or _up_has_call(ctx, b, o, STD_INT))
+                    R.inst(fn, "integer-frame#%d" % n, {"function": fn, "at": b.loc(i), "value_from_the_std_i64_parser": ok})
+                    if not ok:
+                        R.finding(re.sub(r"(::\{closure#\d+\})+$", "", fn), "integer-frame:not-from-the-std-parser",
+                                  "the parser builds an integer frame (line %d) from a number the std i64 parser did not produce: a hand-written decimal reader has to be shown to cover the whole range (i64::MIN, which the server emits, is the usual casualty)" % b.bb_line(i), b.loc(i))
+        lps = cfg.loops(b)
+        inloop = set().union(*lps.values()) if lps else set()
+        for i in sorted(inloop):
+            t = b.term(i)
+            hit = False
+            for st in b.stmts(i):
+                if st["k"] == "=" and st["r"]["k"] == "bin" and st["r"]["op"] in ("Mul", "MulWithOverflow") and any(op_is_const(o) and str(o.get("v")) == "10" for o in (st["r"]["a"], st["r"]["b"])):
+                    hit = True
+            if t["k"] == "call" and re.search(r"::(checked_mul|wrapping_mul|saturating_mul|overflowing_mul)$", t["f"] or "") and any(op_is_const(a) and str(a.get("v")) == "10" for a in t["a"]):
+                hit = True
+            if hit:
+                loops10 += 1
+                R.finding(re.sub(r"(::\{closure#\d+\})+$", "", fn), "decimal-accumulator",
+                          "%s accumulates decimal digits itself (x10 inside a loop, line %d) instead of using the std parser: the range it accepts is not the range the serializer writes" % (fn.split("::")[-1], b.bb_line(i)), b.loc(i))
+    R.inst("-", "decimal-accumulators", {"in_protocol_parser": loops10})
+    R.floor("integer_frames_built_by_the_parser", n)
+
+
+def _up_has_call(ctx, body, o, rx):
+    """std parse reached through a closure's argument / capture (`.and_then(|s| s.parse())` chains)"""
+    for b2 in shared.closure_tree(ctx, body):
+        if any(re.search(rx, t["f"] or "") for _, t in b2.calls()):
+            return True
+    enc = ctx.prog.bodies.get(body.encl) if body.encl else None
+    while enc is not None:
+        if any(re.search(rx, t["f"] or "") for _, t in enc.calls()):
+            return True
+        enc = ctx.prog.bodies.get(enc.encl) if enc.encl else None
+    return False
+
+
+# ---- R-PARSE-AGG-INCOMPLETE -----------------------------------------------------------------------
+def rule_agg_incomplete(ctx, R):
+    """an aggregate (array / map / set) is `incomplete` only when one of its parts is: in the
+    parser functions that walk the elements of an aggregate (they call parse_frame), every
+    `Ok(None)` exit is decided by a sub-parser's own answer (the None of parse_line / parse_frame),
+    never by a comparison of the bytes received with an estimate from the announced element count.
+    Elements have no fixed size, so such an estimate keeps a short malformed aggregate waiting for
+    ever instead of answering the protocol error its bytes already show."""
+    n = 0
+    PF = "protocol::parser::parse_frame"
+    for fn, b in sorted(ctx.prog.bodies.items()):
+        if not fn.startswith("protocol::parser::") or "::tests::" in fn or b.kind == "Closure" or fn == PF:
+            continue
+        # element walkers: parse_frame is called inside a loop (or in a closure an adaptor drives)
+        lps_ = cfg.loops(b)
+        inl_ = set().union(*lps_.values()) if lps_ else set()
+        walks = any(callee(t) == PF and i in inl_ for i, t in b.calls()) or any(callee(t) == PF for body in shared.closure_tree(ctx, b)[1:] for _, t in body.calls())
+        if not walks:
+            continue
+        # blocks that set the result to Ok(None)
+        nones = []
+        for i, bb in enumerate(b.bbs):
+            if bb.get("cleanup"):
+                continue
+            for st in bb["s"]:
+                if st["k"] == "=" and st["l"]["l"] == 0 and not st["l"]["p"] and st["r"]["k"] == "agg" and st["r"]["a"] == "std::result::Result::Ok" and st["r"]["o"]:
+                    o = st["r"]["o"][0]
+                    isnone = False
+                    if op_is_const(o):
+                        isnone = "None" in str(o.get("c"))
+                    else:
+                        for kind, db, d in prov.build_defs(b).get(op_place(o)["l"], ()):
+                            if kind == "stmt" and d["r"]["k"] == "agg" and d["r"]["a"].endswith("Option::None"):
+                                isnone = True
+                    if isnone:
+                        nones.append(i)
+        for i in nones:
+            n += 1
+            # the closest switch that decides whether this block runs
+            ctl = None
+            for x in range(len(b.bbs)):
+                t = b.term(x)
+                if t["k"] != "switch" or not cfg.dominates(b, x, i) or x == i:
+                    continue
+                succ = set(b.succs(x))
+                if any(i in cfg.edge_dom_set(b, x, y) or y == i for y in succ) and not all(i in cfg.fwd(b, [y]) for y in succ):
+                    if ctl is None or cfg.dominates(b, ctl, x):
+                        ctl = x
+            why = "no deciding test found"
+            ok = False
+            if ctl is not None:
+                t = b.term(ctl)
+                dl = op_local(t["d"])
+                src = None
+                for st in b.stmts(ctl):
+                    if st["k"] == "=" and st["l"]["l"] == dl and st["r"]["k"] == "discr":
+                        src = st["r"]["p"]
+                if src is not None:
+                    P = prov.origins(b, src["l"], deep=True)
+                    if P.has_call(r"^protocol::parser::"):
+                        ok = True; why = "the None of a sub-parser"
+                    else:
+                        why = "a discriminant not produced by a sub-parser"
+                else:
+                    why = "a comparison / flag (line %d)" % b.bb_line(ctl)
+            R.inst(fn, "incomplete-exit@%d" % b.bb_line(i), {"function": fn, "at": b.loc(i), "decided_by": why})
+            if not ok:
+                R.finding(fn, "incomplete-exit:not-a-sub-parsers-answer",
+                          "%s answers `incomplete` (line %d) on %s: an aggregate's elements have no fixed size, so only the element parsers can tell whether more bytes are needed -- a short aggregate with malformed content waits for ever instead of getting its protocol error" % (fn.split("::")[-1], b.bb_line(i), why), b.loc(i))
+    R.floor("aggregate_incomplete_exits", n)
